@@ -391,3 +391,23 @@ Definition no_empty_hfrag (ls : list label) : bool :=
 (* model vs implementation, one step *)
 Definition step_agrees (model real : list event) : bool :=
   forallb (fun x => wires_eqb (to_side x model) (to_side x real)) sides.
+
+(* ---- everything sent has been delivered (used when the windows never bind, e.g. the
+   concurrent end-to-end runs): equality instead of prefix *)
+Definition atoms_eqb (a b : list atom) : bool := prefixb a b && prefixb b a.
+Definition P_complete (ls : list label) (o : obs) : Prop :=
+  forall y s, In y sides -> In s (mentioned ls o) ->
+    out_atoms false (other y) s (concat o) = in_atoms false y s (pre (length o) ls).
+Definition b_complete (ls : list label) (o : obs) : bool :=
+  forallb (fun y => forallb (fun s =>
+      atoms_eqb (out_atoms false (other y) s (concat o)) (in_atoms false y s (pre (length o) ls)))
+    (mentioned ls o)) sides.
+(* credit at the end of the run only (no attribution of frames to labels needed) *)
+Definition P_credit_final (ls : list label) (o : obs) : Prop :=
+  forall y s, In y sides -> In s (0%N :: mentioned ls o) ->
+    creds y s (concat o) = (if N.eqb s 0 then fclc y (pre (length o) ls) else fcls y s (pre (length o) ls)).
+Definition b_credit_final (ls : list label) (o : obs) : bool :=
+  forallb (fun y => forallb (fun s =>
+      Z.eqb (creds y s (concat o)) (if N.eqb s 0 then fclc y (pre (length o) ls) else fcls y s (pre (length o) ls)))
+    (0%N :: mentioned ls o)) sides.
+Definition nsum (l : list N) : N := fold_right N.add 0%N l.
